@@ -134,11 +134,13 @@ class MetricReceiver(CarbonServerProtocol, TimeoutMixin):
       events.resumeReceivingMetrics.addHandler(self.resumeReceiving)
       events.pauseReceivingMetrics.addHandler(self.pauseReceiving)
 
-    if state.metricReceiversPaused:
-      self.pauseReceiving()
-      if not state.metricReceiversPaused:
-        # resumed in the meantime, possibly before our handler was called
-        self.resumeReceiving()
+      # Only a receiver that will hear the resume may be paused here (without
+      # flow control nothing would ever resume it).
+      if state.metricReceiversPaused:
+        self.pauseReceiving()
+        if not state.metricReceiversPaused:
+          # resumed in the meantime, possibly before our handler was called
+          self.resumeReceiving()
 
     state.connectedMetricReceiverProtocols.add(self)
     checkIfAcceptingConnections()
